@@ -663,11 +663,21 @@ func (p *Parser) parseSwitch() ast.Node {
 			isDefaultCase = true
 		} else if p.curTokenIs(token.CASE) {
 			p.nextToken() // move to the token following "case"
-			caseExprs = append(caseExprs, p.parseExpression(LOWEST))
+			caseExpr := p.parseExpression(LOWEST)
+			if caseExpr == nil {
+				p.setTokenError(p.curToken, "invalid case expression")
+				return nil
+			}
+			caseExprs = append(caseExprs, caseExpr)
 			for p.peekTokenIs(token.COMMA) {
 				p.nextToken() // move to the comma
 				p.nextToken() // move to the following expression
-				caseExprs = append(caseExprs, p.parseExpression(LOWEST))
+				caseExpr := p.parseExpression(LOWEST)
+				if caseExpr == nil {
+					p.setTokenError(p.curToken, "invalid case expression")
+					return nil
+				}
+				caseExprs = append(caseExprs, caseExpr)
 			}
 		} else {
 			p.setTokenError(p.curToken, "expected 'case' or 'default' (got %s)", p.curToken.Literal)
@@ -1089,7 +1099,17 @@ func (p *Parser) parseIf() ast.Node {
 		if p.peekTokenIs(token.IF) { // this is an "else if"
 			p.nextToken() // move to the "if"
 			nestedIfToken := p.curToken
+			// each "else if" nests one level deeper (see MaxDepth); the
+			// enclosing parseNode restores the counter
+			if p.depth++; p.depth > MaxDepth {
+				p.setTokenError(p.curToken, "expression is nested too deeply (limit %d)", MaxDepth)
+				return nil
+			}
 			nestedIf := p.parseIf()
+			if nestedIf == nil {
+				p.setTokenError(p.curToken, "invalid else if expression")
+				return nil
+			}
 			alternative := ast.NewBlock(nestedIfToken, []ast.Node{nestedIf})
 			return ast.NewIf(ifToken, cond, consequence, alternative)
 		}
@@ -1529,6 +1549,10 @@ func (p *Parser) parseIndex(leftNode ast.Node) ast.Node {
 	if !p.peekTokenIs(token.COLON) {
 		p.nextToken() // move to the first index
 		firstIndex = p.parseExpression(LOWEST)
+		if firstIndex == nil {
+			p.setTokenError(p.curToken, "invalid index expression")
+			return nil
+		}
 		if p.peekTokenIs(token.RBRACKET) {
 			p.nextToken() // move to the "]"
 			return ast.NewIndex(indexToken, left, firstIndex)
@@ -1542,6 +1566,10 @@ func (p *Parser) parseIndex(leftNode ast.Node) ast.Node {
 		}
 		p.nextToken() // move to the second index
 		secondIndex = p.parseExpression(LOWEST)
+		if secondIndex == nil {
+			p.setTokenError(p.curToken, "invalid index expression")
+			return nil
+		}
 	}
 	if !p.expectPeek("an index expression", token.RBRACKET) {
 		return nil
@@ -1717,6 +1745,10 @@ func (p *Parser) parseMapOrSet() ast.Node {
 		p.nextToken() // move to the ":"
 		p.nextToken() // move to the first value
 		firstValue := p.parseExpression(LOWEST)
+		if firstKey == nil || firstValue == nil {
+			p.setTokenError(p.curToken, "invalid syntax in map expression (missing value)")
+			return nil
+		}
 		pairs := map[ast.Expression]ast.Expression{firstKey: firstValue}
 		for !p.peekTokenIs(token.RBRACE) {
 			if p.peekTokenIs(token.NEWLINE) {
@@ -1753,6 +1785,10 @@ func (p *Parser) parseMapOrSet() ast.Node {
 		}
 		return ast.NewMap(firstToken, pairs)
 	} else { // This is a set
+		if firstKey == nil {
+			p.setTokenError(p.curToken, "invalid syntax in set expression")
+			return nil
+		}
 		items := []ast.Expression{firstKey}
 		if p.peekTokenIs(token.COMMA) {
 			p.nextToken()
@@ -1773,6 +1809,10 @@ func (p *Parser) parseMapOrSet() ast.Node {
 				return nil
 			}
 			key := p.parseExpression(LOWEST)
+			if key == nil {
+				p.setTokenError(p.curToken, "invalid syntax in set expression")
+				return nil
+			}
 			items = append(items, key)
 			if !p.peekTokenIs(token.COMMA) {
 				break
@@ -1799,6 +1839,10 @@ func (p *Parser) parseKeyValue() (ast.Expression, ast.Expression) {
 	}
 	p.nextToken()
 	value := p.parseExpression(LOWEST)
+	if value == nil {
+		p.setTokenError(p.curToken, "invalid syntax in map expression (missing value)")
+		return nil, nil
+	}
 	return key, value
 }
 
